@@ -246,6 +246,41 @@ impl RM {
                 recorded(*self, true) - (long_excluding_amount + short_excluding_amount) >= required_min(*self, true)
                 && recorded(*self, true) - (long_excluding_amount + short_excluding_amount) >= required_collateral(*self, true),
 //@body
+
+//@unit C22.validate_market_balances_excluding_the_given_token_amounts
+//@ file programs/store/src/states/market/utils.rs
+//@ within pub trait ValidateMarketBalances
+//@ fn validate_market_balances_excluding_the_given_token_amounts
+//@ sig fn validate_market_balances_excluding_the_given_token_amounts( &self, first_token: &Pubkey, second_token: &Pubkey, first_excluding_amount: u64, second_excluding_amount: u64, ) -> Result<()>
+//@ subopt \.map_err\(E::Other\)\? => ?
+//@ subopt \.map_err\(CoreError::from\)\? => ?
+//@ loop 1: invariant _k21 <= 2, rm_wf(*self), _arr21[0] == (first_token, first_excluding_amount), _arr21[1] == (second_token, second_excluding_amount), long_excluding_amount as int == excluded_on(*self, true, *first_token, first_excluding_amount, *second_token, second_excluding_amount, _k21 as int), short_excluding_amount as int == excluded_on(*self, false, *first_token, first_excluding_amount, *second_token, second_excluding_amount, _k21 as int), (_k21 >= 1 ==> first_excluding_amount == 0 || side_of(self.market.meta, *first_token).is_some()), (_k21 >= 2 ==> second_excluding_amount == 0 || side_of(self.market.meta, *second_token).is_some()), decreases 2 - _k21,
+    pub fn validate_market_balances_excluding_the_given_token_amounts(&self, first_token: &Pubkey, second_token: &Pubkey, first_excluding_amount: u64, second_excluding_amount: u64) -> (r: Result<(), E>)
+        requires rm_wf(*self)
+        ensures
+            // success means the balances are covered after setting BOTH given amounts aside, each on the side of its token
+            // (two amounts in the same token add up)
+            r.is_ok() ==> pools_readable(*self),
+            r.is_ok() && !self.market.pure ==> ({
+                let el = excluded_on(*self, true, *first_token, first_excluding_amount, *second_token, second_excluding_amount, 2);
+                let es = excluded_on(*self, false, *first_token, first_excluding_amount, *second_token, second_excluding_amount, 2);
+                &&& recorded(*self, true) - el >= required_min(*self, true) && recorded(*self, true) - el >= required_collateral(*self, true)
+                &&& recorded(*self, false) - es >= required_min(*self, false) && recorded(*self, false) - es >= required_collateral(*self, false)
+            }),
+            r.is_ok() && self.market.pure ==> ({
+                let e = excluded_on(*self, true, *first_token, first_excluding_amount, *second_token, second_excluding_amount, 2)
+                      + excluded_on(*self, false, *first_token, first_excluding_amount, *second_token, second_excluding_amount, 2);
+                recorded(*self, true) - e >= required_min(*self, true) && recorded(*self, true) - e >= required_collateral(*self, true)
+            }),
+            // a non-zero amount in a token that is not a pool token is an error
+            (first_excluding_amount != 0 && side_of(self.market.meta, *first_token).is_none()) || (second_excluding_amount != 0 && side_of(self.market.meta, *second_token).is_none()) ==> r.is_err(),
+//@body
+}
+
+/// amount excluded on one side after the first `k` of the two (token, amount) pairs
+pub open spec fn excluded_on(m: RM, long_side: bool, t1: Pubkey, a1: u64, t2: Pubkey, a2: u64, k: int) -> int {
+    (if k >= 1 && a1 != 0 && side_of(m.market.meta, t1) == Some(long_side) { a1 as int } else { 0 })
+    + (if k >= 2 && a2 != 0 && side_of(m.market.meta, t2) == Some(long_side) { a2 as int } else { 0 })
 }
 
 /// Several markets share one vault: if every market's recorded balance of the vault's token is backed (the sum of the
